@@ -20,7 +20,7 @@ P = {
  "C07": ("Proved for the counter logic over all interleavings of atomic steps: successive values, rollover count = number of zeros handed out, extended value strictly increasing, fixed and random start ranges. Partial by nature: that sync.Mutex makes the two methods atomic and race-free is a fact about the Go runtime; it is sampled under the race detector with a linearizability check of recorded concurrent histories.", "randutil Intn(n) in [0,n) is a hypothesis of C07_random_start; the verif hook VerifSetRand drives the boundary draws."),
  "C08": ("Proved for all eight payloaders, every MTU 0-65535, every input and every reachable state: no panic (termination included), fragments 1..MTU bytes (Opus: the input), non-empty, owned (no View in state or output, hence independent of later writes to the input: C08_owned_is_independent). 'Input buffer not written' is outside an immutable model and is observed per case with guard bytes.", "Ownership of the implementation's memory is observed (address overlap + overwrite differential), not proved about Go's allocator."),
  "C09": ("Proved: totality of every depacketizer on arbitrary input and arbitrary receiver state (H264, H265, VP8, VP9, Opus, AV1Depacketizer, AV1Packet); reuse = fresh for VP8/VP9 (and H265, Opus by construction). Ownership of retained fragment state (H264Packet, AV1Depacketizer) is decided by correspondence with a store-free model plus the overwrite differential on the implementation.", "Metadata after a failed call is not compared."),
- "C10": ("Proved: Annex-B split; single/FU-A shape and reassembly; C10_lossless_partial / C10_access_unit (any sequence of valid units, any MTU >= 3, any payloader state, Annex-B or AVC receiver with any stale buffer -> exactly the units the hold-back rule delivers); C10_decode_rfc (any plan of the independent RFC 6184 encoder, empty fragments included). Partial: parameter sets whose STAP-A exceeds the MTU are dropped (C10_lossless_refuted, known finding KF-C10-stapa-drop).", ""),
+ "C10": ("Proved: Annex-B split; single/FU-A shape and reassembly; C10_lossless / C10_access_unit at full strength (any sequence of valid units, any MTU 3..65535, any payloader state reachable on valid input, Annex-B or AVC receiver with any stale buffer -> exactly the units the hold-back rule delivers; a held SPS/PPS pair too large for one STAP-A goes out as two units - the former finding KF-C10-stapa-drop, repaired in /repo by f9f14ce); C10_decode_rfc (any plan of the independent RFC 6184 encoder, empty fragments included).", ""),
  "C11": ("Full statement proved: lossless split with S on the first fragment only, PID 0, picture id forms and +1 mod 2^15 per frame from 0; every RFC 7741 descriptor decodes to its fields for any receiver state; every strict prefix of a descriptor is rejected.", ""),
  "C12": ("Full statement proved: flexible and non-flexible losslessness with B/E/P, picture id step, scalability structure with the frame header's width/height on key frames; C12_bits (bit reader = bit range), C12_header (bitstream syntax -> parser result, profiles 0-3, all colour configurations, sizes 1-65535), C12_decode / C12_truncated for the payload descriptor, totality and reuse.", "Frames with show_existing_frame have no frame type; 65536-pixel sizes wrap in the 16-bit fields (stated bound)."),
  "C13": ("Proved: LEB128 inverse below 2^56 and read bounds; OBU header inverse both ways (complete 2^16 enumeration lifted by forallb_forall); size, Z/Y and W rules for every input and MTU; depacketizer = aggregation-header semantics for unfragmented packets (W=1..3 and W=0) and for a fragment chain; end-to-end losslessness for 1-3 OBUs in one packet and for one OBU of any size. Partial (named _partial): cleared size flags, layer-id separation and losslessness for sequences mixing complete and fragmented elements are decided by correspondence + oracle only.", ""),
@@ -50,7 +50,7 @@ def main():
             "kind_free_text": "Coq 8.16.1 development (coq/: Base, Model, Spec, Proofs, Properties, Extract), extracted OCaml model runner (runner/driver.ml + extracted model), Go differential harness with property oracles (harness/), Python orchestrator (check), mutation self-test (lib/selftest.py, seeded/)",
         }],
         "checks": [],
-        "notes": "Every check: (1) full make of the Coq development + Print Assumptions under every theorem of Properties/<id>.v + lint (no Admitted/admit/Axiom/Parameter/...); (2) harness rebuilt against /repo with -tags verif; (3) correspondence: corpus + generated cases run on the implementation and on the extracted model, observables compared line by line; (4) the property's own oracle on the implementation; (5) verdict per DESIGN.md section 5 and evidence. Thorough adds a clean rebuild + coqchk -o over all Properties modules (shared stamp), 50-200x the cases, and an in-Coq vm_compute re-evaluation of a 300-case sub-corpus. known_findings.json lists 4 open findings (C03, C10, C14 x2) and 20 'fixed:' records.",
+        "notes": "Every check: (1) full make of the Coq development + Print Assumptions under every theorem of Properties/<id>.v + lint (no Admitted/admit/Axiom/Parameter/...); (2) harness rebuilt against /repo with -tags verif; (3) correspondence: corpus + generated cases run on the implementation and on the extracted model, observables compared line by line; (4) the property's own oracle on the implementation; (5) verdict per DESIGN.md section 5 and evidence. Thorough adds a clean rebuild + coqchk -o over all Properties modules (shared stamp), 50-200x the cases, and an in-Coq vm_compute re-evaluation of a 300-case sub-corpus. known_findings.json lists 3 open findings (C03, C14 x2; all pinned by upstream tests) and 21 'fixed:' records.",
         "not_applicable": [],
     }
     for pid in sorted(P):
